@@ -19,7 +19,7 @@ RULE = (
     "Hypothesis draws a PVT table (shipped CSVs thinned/cropped; synthetic power-law, constant-diffusivity, kinked "
     "and real-gas families on uniform/geometric/jittered pressure grids of 8..120 rows (400 in thorough); small "
     "library-built tables), a pressure pair (p_i on/off a node; p_f/p_i uniform in (0.01,0.99) or 1-10^-u, u in "
-    "[1,5]), nx 3..100 (400 thorough), a time grid (uniform, quadratic, geometric, random log-uniform steps 1e-8.."
+    "[1,5]), nx 3..400, a time grid (uniform, quadratic, geometric, random log-uniform steps 1e-8.."
     "1e4, 1..5 very large steps 1e3..1e12, grids with repeated times, non-zero start) and a schedule (none, "
     "constant, stepwise non-increasing, arbitrary within [p_min, p_i]); 1 in 4 cases is an IdealReservoir. "
     "Non-trivial = at least 2 steps, positive drawdown and one of: p_f/p_i > 0.9, a step with mesh ratio > 100, a "
@@ -40,7 +40,7 @@ LEVEL_TEXT = (
 
 def strategy(tier):
     if tier == "quick":
-        return flowcase.sim_case(nx_max=100, max_steps=160, table_nmax=120)
+        return flowcase.sim_case(nx_max=400, max_steps=160, table_nmax=120)
     return flowcase.sim_case(nx_max=400, max_steps=1500, table_nmax=400)
 
 
